@@ -46,6 +46,7 @@ structure Cfg where
   effMax : Int          -- min(policy.maxAttempts, channel limit), 1 without a usable policy
   codes : List Nat
   thr : Option Throttler
+  nsFail : Bool := false   -- some stream creations are scripted to fail: attempts the server never sees count as retries too
 
 /-- monitor state -/
 structure Mon where
@@ -61,14 +62,19 @@ structure Mon where
 structure DS where
   cfg : Option Cfg := none
   mon : Mon := {}
+  dead : Bool := false        -- NewStream returned an error: there is no stream
   blocked : Bool := false     -- an earlier op never returned (or panicked): the harness skips the rest
 
 def showEv : Ev → String
   | .newAttempt i p => s!"N{i}p{p}"
   | .msg i s z => s!"M{i}:{s}x{z}"
   | .half i => s!"E{i}"
+  | .failed c => s!"F{c}"
 
-def showEvs (l : List Ev) : String := if l.isEmpty then "-" else ",".intercalate (l.map showEv)
+/-- the server sees nothing of an attempt whose stream could not be created -/
+def showEvs (l : List Ev) : String :=
+  let l := l.filter fun e => !(e matches .failed _)
+  if l.isEmpty then "-" else ",".intercalate (l.map showEv)
 
 def parseEv (s : String) : Option Ev :=
   match s.toList with
@@ -115,7 +121,7 @@ def listSet {α} (l : List α) (i : Nat) (v : α) : List α := l.set i v
 
 /-- C18 on what the implementation showed for this op.
     `histBefore` = application history before the op, `mon.hist` already includes the op's own item. -/
-def monitorOp (c : Cfg) (mon : Mon) (histBefore : List Wire) (evs : List Ev) : Mon × String := Id.run do
+def monitorOp (c : Cfg) (mon : Mon) (histBefore : List Wire) (evs : List Ev) (checkLive : Bool := true) : Mon × String := Id.run do
   let mut m := mon
   let mut verdict := "ok"
   let mut fresh : List Nat := []        -- attempts created inside this op
@@ -141,7 +147,11 @@ def monitorOp (c : Cfg) (mon : Mon) (histBefore : List Wire) (evs : List Ev) : M
           -- transparent
           if !(n = 1 ∧ (b.kind == .refuse || b.kind == .goaway)) then
             verdict := "VIOL transparent retry of an attempt the server had processed (or not the first attempt)"
-        else if p = prevP + 1 then
+        else if c.nsFail ∧ p > prevP ∧ n = 1 ∧ (b.kind == .refuse || b.kind == .goaway) then
+          -- the visible attempt was retried transparently; the counted retries in between belong to attempts whose
+          -- stream creation failed, which the server never sees (they are judged by the s_shouldretry table)
+          pure ()
+        else if p = prevP + 1 ∨ (c.nsFail ∧ p > prevP) then
           if c.st.disableRetry ∨ c.st.pol.isNone then verdict := "VIOL retry without a retry policy / with retries disabled"
           else if b.kind == .headers then verdict := "VIOL retry although the failed attempt had received response headers"
           else
@@ -150,7 +160,7 @@ def monitorOp (c : Cfg) (mon : Mon) (histBefore : List Wire) (evs : List Ev) : M
             else if b.kind == .trailersOnly ∧ parsePushback b.push = .abort then verdict := "VIOL retry although the server pushback said not to"
             else
               -- throttling must have allowed it: bucket after the removal above half
-              match m.tokens, c.thr with
+              match (if c.nsFail then none else m.tokens), c.thr with
               | some t, some th =>
                 let t' := if t - 1 < 0 then 0 else t - 1        -- the failure being retried costs one token first
                 m := { m with tokens := some t' }
@@ -165,6 +175,7 @@ def monitorOp (c : Cfg) (mon : Mon) (histBefore : List Wire) (evs : List Ev) : M
     | .half i =>
       if i = 0 ∨ i > m.logs.length then verdict := "VIOL half-close on an unknown attempt"
       else m := { m with logs := listSet m.logs (i - 1) ((m.logs.getD (i - 1) []) ++ [.half]) }
+    | .failed _ => pure ()
   -- replay exactness: every attempt's wire log is a prefix of the application's history …
   for l in m.logs do
     if !isPrefix l m.hist then verdict := "VIOL an attempt carried something the application did not produce in that order"
@@ -173,15 +184,30 @@ def monitorOp (c : Cfg) (mon : Mon) (histBefore : List Wire) (evs : List Ev) : M
     if i > 1 then
       let l := m.logs.getD (i - 1) []
       if !isPrefix histBefore l then verdict := "VIOL a retry attempt did not replay the application's complete history"
+  -- … and the newest attempt, while the server has not answered it and the RPC goes on, has been sent all of it
+  if checkLive then
+    match m.logs.getLast? with
+    | some l =>
+      let b := (c.st.script.drop (m.logs.length - 1)).headD Beh.dflt
+      let a : Att := { beh := b, prev := 0, log := l }
+      if (b.kind == .never || !a.due) && l != m.hist then
+        verdict := "VIOL the live current attempt has not been sent everything the application produced"
+    | none => pure ()
   return (m, verdict)
+
+def parseNS (s : String) : Option (List (Option Nat)) :=
+  if s = "" ∨ s = "-" then some [] else
+  (s.splitOn ",").mapM fun p => if p = "-" then some none else p.toNat?.map some
+
+def showResU (r : Res) : String := (showRes r).replace " " "_"
 
 def step (ds : DS) (fs : List String) (impl : String) : DS × String × String :=
   match fs with
   | "cfg" :: kvs =>
     let g := getKV kvs
     match (g "ma").toInt?, natList (g "codes"), (g "ib").toInt?, (g "mb").toInt?, ofDecimal (g "mult"),
-          (g "chan").toInt?, parseScript (g "script") with
-    | some ma, some codes, some ib, some mb, some mult, some chn, some script =>
+          (g "chan").toInt?, parseScript (g "script"), parseNS (g "ns") with
+    | some ma, some codes, some ib, some mb, some mult, some chn, some script, some ns =>
       let dis := g "dis" == "1"
       let cm := channelMax chn
       let pol := if ma = 0 then none else convertPolicy cm ma ib mb mult codes
@@ -193,18 +219,43 @@ def step (ds : DS) (fs : List String) (impl : String) : DS × String × String :
           | _, _ => none
         | _ => none
       let kind := g "kind"
-      let st : St := St.init (kind != "u") (kind == "b") dis pol 0 thr script
+      let st : St := St.init (kind != "u") (kind == "b") dis pol 0 thr script ns
       let effMax : Int := match pol with | some p => if dis then 1 else p.maxAttempts | none => 1
-      ({ cfg := some { st := st, effMax := effMax, codes := (match pol with | some p => p.codes | none => []), thr := if dis then none else thr },
+      ({ cfg := some { st := st, effMax := effMax, codes := (match pol with | some p => p.codes | none => []), thr := if dis then none else thr, nsFail := ns.any Option.isSome },
          mon := { tokens := if dis then none else thr.map (·.tokens) } }, "ok", "-")
-    | _, _, _, _, _, _, _ => (ds, "bad-op", "-")
+    | _, _, _, _, _, _, _, _ => (ds, "bad-op", "-")
   | op :: args =>
     match ds.cfg with
     | none => (ds, "not-configured", "-")
     | some c =>
       if ds.blocked then (ds, "skipped", "-") else
+      if ds.dead ∧ op ≠ "cancel" then (ds, "no-stream", "-") else
       let ifs := fields impl
       let fuel := 64
+      if op = "sendrecv" then
+        match args.head?.bind String.toNat? with
+        | none => (ds, "bad-op", "-")
+        | some n =>
+          let x := c.st.opSendRecv fuel n
+          let q := if n = 0 then 0 else c.st.seq + 1
+          let item := if c.st.sentLast then [] else if c.st.clientStreams then [Wire.msg q n] else [Wire.msg q n, Wire.half]
+          let mline := s!"S={showResU x.2.1} R={showResU x.2.2.1} t=- ev={showEvs x.2.2.2}"
+          let histBefore := ds.mon.hist
+          let mon0 := { ds.mon with hist := ds.mon.hist ++ item }
+          let iS := ((getKV ifs "S").replace "_" " ")
+          let iR := ((getKV ifs "R").replace "_" " ")
+          let endedNow := iS.startsWith "err" || iS == "exhausted-eof" || iR.startsWith "err" || iR == "eof"
+          let (mon1, verdict) :=
+            match parseEvs (getKV ifs "ev") with
+            | none => (mon0, "-")
+            | some ievs => monitorOp c mon0 histBefore ievs (!(mon0.ended || endedNow))
+          let mon2 := { mon1 with
+            delivered := mon1.delivered || iR.startsWith "msg",
+            bufSize := mon1.bufSize + 5 + n,
+            ended := mon1.ended || endedNow }
+          let mon3 := { mon2 with overLimit := mon2.overLimit || decide (mon2.bufSize > x.1.maxBuf) }
+          ({ ds with cfg := some { c with st := x.1 }, mon := mon3, blocked := x.2.2.1 = .blocked || x.2.1 = .blocked }, mline, verdict)
+      else
       -- model
       let stepRes : Option (St × Res × List Ev × List Delay × List Wire) :=
         match op, args with
@@ -234,13 +285,14 @@ def step (ds : DS) (fs : List String) (impl : String) : DS × String × String :
         -- monitor on the implementation's own events
         let histBefore := ds.mon.hist
         let mon0 := { ds.mon with hist := ds.mon.hist ++ item }
+        let iword := ifs.headD ""
+        let endedNow := op == "cancel" || ((op == "recv" || op == "hdr" || op == "send" || op == "new") && (iword == "err" || iword == "exhausted-eof" || iword == "nohdr" || (op == "recv" && iword == "eof")))
         let (mon1, verdict) :=
           match parseEvs (getKV ifs "ev") with
           | none => (mon0, "-")
           | some ievs =>
-            monitorOp c mon0 histBefore ievs
+            monitorOp c mon0 histBefore ievs (!(mon0.ended || endedNow))
         -- delivery / limit / end bookkeeping from the implementation's result
-        let iword := ifs.headD ""
         let mon2 := { mon1 with
           delivered := mon1.delivered || iword == "hdr" || iword.startsWith "msg",
           bufSize := mon1.bufSize + (match op, args with | "send", [n] => 5 + (n.toInt?.getD 0) | _, _ => 0),
@@ -253,7 +305,8 @@ def step (ds : DS) (fs : List String) (impl : String) : DS × String × String :
               if tOK then verdict
               else s!"VIOL retries of this op took {t}ns, outside the backoff/pushback bounds [{lo},{hi.floor}]"
             | _, _ => verdict
-        ({ cfg := some { c with st := st' }, mon := mon3, blocked := res = .blocked }, mline, verdict2)
+        ({ cfg := some { c with st := st' }, mon := mon3, blocked := res = .blocked,
+           dead := ds.dead || (op == "new" && res != .ok && res != .blocked) }, mline, verdict2)
   | _ => (ds, "bad-op", "-")
 
 def run : IO Unit := Driver.run ({} : DS) step
